@@ -50,7 +50,8 @@ pub fn gen_link_set(rng: &mut Rng, nfiles: usize, hostile: bool) -> Vec<LinkFile
         let mut ext_needed: BTreeSet<usize> = BTreeSet::new();
         let mut body_all: Vec<Vec<GStmt>> = vec![];
         for _ in 0..nblocks {
-            let n = 1 + rng.usize(6);
+            // now and then a block without any statement (its labels, on the .end line, are all the file contributes there)
+            let n = if rng.chance(1, 10) { 0 } else { 1 + rng.usize(6) };
             let mut body = vec![];
             for _ in 0..n {
                 let k = match rng.below(8) {
@@ -70,11 +71,11 @@ pub fn gen_link_set(rng: &mut Rng, nfiles: usize, hostile: bool) -> Vec<LinkFile
         let mut end_labels: Vec<Vec<String>> = vec![vec![]; nblocks];
         while let Some(i) = defined_here.pop() {
             let b = rng.usize(nblocks);
-            if rng.chance(1, 5) { end_labels[b].push(recase(rng, &pool[i])); }
+            if body_all[b].is_empty() || rng.chance(1, 5) { end_labels[b].push(recase(rng, &pool[i])); }
             else { let s = rng.usize(body_all[b].len()); body_all[b][s].labels.push(recase(rng, &pool[i])); }
         }
         // some private labels too
-        if rng.chance(1, 2) { let b = rng.usize(nblocks); let s = rng.usize(body_all[b].len()); body_all[b][s].labels.push(format!("priv{f}_{}", rng.below(100))); }
+        if rng.chance(1, 2) { let b = rng.usize(nblocks); if body_all[b].is_empty() { end_labels[b].push(format!("priv{f}_{}", rng.below(100))); } else { let s = rng.usize(body_all[b].len()); body_all[b][s].labels.push(format!("priv{f}_{}", rng.below(100))); } }
         let exts: Vec<usize> = ext_needed.into_iter().collect();
         let mut ext_stmts: Vec<GStmt> = exts.iter().map(|&i| GStmt { labels: vec![], k: K::External(recase(rng, &pool[i])) }).collect();
         // an unused external declaration now and then
@@ -90,6 +91,8 @@ pub fn gen_link_set(rng: &mut Rng, nfiles: usize, hostile: bool) -> Vec<LinkFile
             if rng.chance(1, 12) { start = if rng.bool() { 0 } else { 0xFE00 - len }; }
             stmts.push(GStmt { labels: vec![], k: K::Orig(start as i32) });
             let mut body = body;
+            // a block at x0000: make sure some label sits on the very first word (address 0 is also the placeholder of externals)
+            if start == 0 && !body.is_empty() && body[0].labels.is_empty() { if let Some(j) = (1..body.len()).find(|j| !body[*j].labels.is_empty()) { let l = std::mem::take(&mut body[j].labels); body[0].labels = l; } }
             if !ext_first && rng.chance(1, 3) && !ext_stmts.is_empty() { let e = ext_stmts.pop().unwrap(); let p = rng.usize(body.len() + 1); body.insert(p, e); }
             stmts.extend(body);
             stmts.push(GStmt { labels: std::mem::take(&mut end_labels[b]), k: K::End });
